@@ -16,12 +16,13 @@ DEPTH = {"quick": 3, "thorough": 4}
 
 
 def worlds(tier):
-    ws = adv_worlds(3)
+    """-> list of (world, depth)"""
+    ws = [(w, DEPTH[tier]) for w in adv_worlds(3)]
     if tier == "thorough":
-        # every table with <= 2 rows over g,x in {null,1,2}, s in {null,"a"}; unique id k
+        # every table with exactly 2 rows over g,x in {null,1,2}, s in {null,"a"}; unique id k
         for rows in rows_upto([[None, 1, 2], [None, 1, 2], [None, "a"]], 2, with_id=True):
             if len(rows) == 2:
-                ws.append(world(rows))
+                ws.append((world(rows), 3))
     return ws
 
 
@@ -71,12 +72,12 @@ def alphabet(st, hist):
 N_EVENTS = 31  # upper bound of the menu size at the root (task splitting only)
 
 
-def make_explorer(world, tier="quick"):
+def make_explorer(world, depth=3):
     return X.Explorer(
         world,
         alphabet=alphabet,
         checks=[],
-        depth=DEPTH[tier],
+        depth=depth,
         oracle="model",
         names="set",
         model_kw={"order_rule": "portable"},
@@ -84,19 +85,24 @@ def make_explorer(world, tier="quick"):
 
 
 def tasks(tier):
-    ws = worlds(tier)
-    return base.split_tasks(ws, N_EVENTS, {"tier": tier})
+    out = []
+    for wi, (w, d) in enumerate(worlds(tier)):
+        if d >= 4:
+            out += [{"world": wi, "first": [i]} for i in range(N_EVENTS)]
+        else:
+            out += [{"world": wi, "first": list(range(i, i + 8))} for i in range(0, N_EVENTS, 8)]
+    return out
 
 
 def run_task(task, tier):
-    w = worlds(tier)[task["world"]]
-    return base.run_history_task(lambda ww: make_explorer(ww, tier), w, [["source", "T"]], task["first"],
-                                 params={"tier": tier})
+    w, d = worlds(tier)[task["world"]]
+    return base.run_history_task(lambda ww: make_explorer(ww, d), w, [["source", "T"]], task["first"],
+                                 params={"depth": d})
 
 
 def recheck(rec):
-    tier = (rec.get("params") or {}).get("tier", "quick")
-    return base.recheck_history(lambda ww: make_explorer(ww, tier), rec)
+    d = (rec.get("params") or {}).get("depth", 3)
+    return base.recheck_history(lambda ww: make_explorer(ww, d), rec)
 
 
 def describe(tier):
@@ -108,7 +114,7 @@ def describe(tier):
         "alphabet_size": len(sample_alpha),
         "depth": DEPTH[tier],
         "input_family": "ADV (3 tables: 5 rows with nulls/dups, 3 rows with ties, empty)" + (
-            " + all tables with exactly 2 rows over g,x in {null,1,2}, s in {null,'a'}" if tier == "thorough" else ""),
+            " + all tables with exactly 2 rows over g,x in {null,1,2}, s in {null,'a'} at depth 3" if tier == "thorough" else ""),
         "n_worlds": len(worlds(tier)),
         "backends": list(X.W.BACKENDS),
         "oracle": "reference model per backend: visible name set, data by name, row count, row sequence where determined",
